@@ -115,6 +115,8 @@ class DegEval:
                 for i, f in enumerate(adt["variants"][0]["fields"]):
                     fs[i] = self.entry(f["ty"], f["name"], None)
                 return S(ty["adt"], fs)
+            if adt is None and not ty["adt"].startswith("embedded_graphics") and (ty["adt"].startswith("fixed::") or not ty.get("args")):
+                return D(0)   # a value of a foreign type (fixed::FixedI32, ..) cannot hold a position: it does not move
             return U("adt " + ty["adt"])
         if isinstance(ty, dict) and ("array" in ty or "slice" in ty):
             inner = self.entry(ty.get("array") or ty.get("slice"), name, pos)
